@@ -1295,7 +1295,7 @@ func (interp *Interpreter) cfg(root *node, sc *scope, importPath, pkgName string
 				wireChild(n)
 				if typ := c0.typ; len(typ.ret) > 0 {
 					n.typ = typ.ret[0]
-					if n.anc.kind == returnStmt && n.typ.id() == sc.def.typ.ret[0].id() {
+					if n.anc.kind == returnStmt && len(n.anc.child) == 1 && n.typ.id() == sc.def.typ.ret[0].id() {
 						// Store the result directly to the return value area of frame.
 						// It can be done only if no type conversion at return is involved.
 						n.findex = childPos(n)
@@ -1329,7 +1329,7 @@ func (interp *Interpreter) cfg(root *node, sc *scope, importPath, pkgName string
 					case "unsafe.alignOf", "unsafe.Offsetof", "unsafe.Sizeof":
 						n.gen = nop
 					}
-				case n.anc.kind == returnStmt:
+				case n.anc.kind == returnStmt && len(n.anc.child) == 1:
 					// Store result directly to frame output location, to avoid a frame copy.
 					n.findex = 0
 				case bname == "cap" && isInConstOrTypeDecl(n):
@@ -1432,7 +1432,7 @@ func (interp *Interpreter) cfg(root *node, sc *scope, importPath, pkgName string
 						}
 					} else {
 						n.typ = valueTOf(typ.Out(0))
-						if n.anc.kind == returnStmt {
+						if n.anc.kind == returnStmt && len(n.anc.child) == 1 {
 							n.findex = childPos(n)
 						} else {
 							n.findex = sc.add(n.typ)
@@ -1485,7 +1485,7 @@ func (interp *Interpreter) cfg(root *node, sc *scope, importPath, pkgName string
 				}
 				if typ := c0.typ; len(typ.ret) > 0 {
 					n.typ = typ.ret[0]
-					if n.anc.kind == returnStmt && n.typ.id() == sc.def.typ.ret[0].id() {
+					if n.anc.kind == returnStmt && len(n.anc.child) == 1 && n.typ.id() == sc.def.typ.ret[0].id() {
 						// Store the result directly to the return value area of frame.
 						// It can be done only if no type conversion at return is involved.
 						n.findex = childPos(n)
